@@ -185,6 +185,7 @@ FIXED = [
     ("C03", "c3b2c18", "polynomial_from_attributes with names omitted and retain_names=False dropped the unused exponent columns first and numbered the default names afterwards: exponents [[0, 1]] became 2*q0 instead of 2*q1 (found after a surviving mutant showed that no driver passed names as a string / omitted them)"),
     ("C10", "22affad", "det of matrices of order >= 4 was wrong (cyclic column order without the cofactor sign; a 4x4 integer matrix with determinant 28 gave 0); reported as a side remark by two seeding sub-agents, then reproduced by the 4x4 vectors added to MC_LinAlg (37 rejections)"),
     ("C10", "05be182", "numpy.add.reduce(a) / numpy.add.accumulate(a) without an axis returned the total / the flattened running sum instead of working along the first axis as numpy does (reported as a side remark by a seeding sub-agent, reproduced once the driver omitted the axis: 34 rejections)"),
+    ("C20", "d65d9cb", "exponents no polynomial can carry were accepted and stored as other monomials: polynomial_from_attributes([[2**32 + 5]], [4]) was 4*q0**5, -1 became q0**4294967295, 2**63 the constant 4 (mentioned in passing by a seeding sub-agent; 180 rejections once the key driver generated such exponents)"),
     ("C03", "64ca5a4", "monomial over an empty index range in D > 1 dimensions returned an object whose storage key width (1) did not match its D names"),
 ]
 
